@@ -12,8 +12,13 @@ ops
       mut  : none | replay | flipbody <permille> <bit> | trunc <len> | settype t | setver v | setsub s |
              setres v | setidx <B|R|X|rB|relay|zero|unknown> | ctr <delta>
   recverr <idxsym> <src>                                       -> digest difference at A
+  hsdup <src> <relay|flip>                                     -> digest difference at A: after the relayed tunnel X-A
+      completed, the relay hands A the stage-0 handshake packet of X once more in a fresh relay frame
+      (byte-identical, or with one bit flipped)
+  reply                                                        -> digest difference at A when its tun emits a packet for X
 answer: `tun=<n> out=<t/s>node,…> del=<peers> roam=<peers> in=<peers> win=<peers> rs=<peers> lh=<0|1> pend=<0|1> used=<n> seen=<0|1>`
-        (`seen`: the datagram handed to the relay contained the end-to-end plaintext)
+        (`seen`: the datagram handed to the relay contained the end-to-end plaintext;
+         `xr`: A's hostinfo for X — a relay-only tunnel — has a direct underlay remote)
 
 The AEAD oracle is instantiated *by construction*: a level authenticates iff its header and body are
 exactly what the tunnel's peer sealed (no mutation touched it), it arrives on that tunnel's index, and it
@@ -82,7 +87,8 @@ def replyNode (s : St) (rx p : Nat) : String :=
   if rx == 0 && p == 3 then (if s.curOf 0 2 == "own" then "2" else "-1")      -- via the relay R
   else if s.curOf rx p == "own" then toString p else "-1"
 
-def render (s : St) (rx sender : Nat) (src : String) (effs : List Effect) (rsPeers : List String) : String :=
+def render (s : St) (rx sender : Nat) (src : String) (effs : List Effect) (rsPeers : List String)
+    (extraOut : List String := []) (extraUsed : Nat := 0) : String :=
   let tun := (effs.filter (fun e => match e with | .deliver _ => true | _ => false)).length
   let out := effs.filterMap (fun e => match e with
     | .testReply p => some ((if rx == 0 && p == 3 then "1/1>" else "4/1>") ++ replyNode s rx p)
@@ -90,6 +96,7 @@ def render (s : St) (rx sender : Nat) (src : String) (effs : List Effect) (rsPee
     | .forward t _ => some ("1/1>" ++ toString t)
     | .sendRecvError _ => some ("2/0>" ++ (if src == "own" then toString sender else "-1"))
     | _ => none)
+  let out := out ++ extraOut
   let del := effs.filterMap (fun e => match e with
     | .close p => some (peerName p) | .recvErrorClose p => some (peerName p) | _ => none)
   let roam := effs.filterMap (fun e => match e with | .roam p => some (peerName p) | _ => none)
@@ -98,7 +105,7 @@ def render (s : St) (rx sender : Nat) (src : String) (effs : List Effect) (rsPee
   let inn := inn.filter (fun p => !del.contains p)
   let used := (effs.filter (fun e => match e with | .relayUsed _ => true | .forward _ _ => true | _ => false)).length
   let lh := !roam.isEmpty || !del.isEmpty
-  s!"tun={tun} out={setStr (sortStr out)} del={setStr (sortStr (dedup del))} roam={setStr (sortStr roam)} in={setStr (sortStr (dedup inn))} win={setStr (sortStr (dedup inn))} rs={setStr rsPeers} lh={boolStr lh} pend=0 used={used} seen=0"
+  s!"tun={tun} out={setStr (sortStr out)} del={setStr (sortStr (dedup del))} roam={setStr (sortStr roam)} in={setStr (sortStr (dedup inn))} win={setStr (sortStr (dedup inn))} rs={setStr rsPeers} lh={boolStr lh} pend=0 used={used + extraUsed} seen=0 xr=0"
 
 /-- lookups of one level at receiver `rx`. `own` = the peer whose tunnel sealed this level. -/
 def mkLook (s : St) (rx : Nat) (relayedLevel : Bool) (src : String) (h base : SymHdr) (own : Nat)
@@ -165,6 +172,20 @@ def noEffectVerdict (impl : String) (allowRecvErrReply : Bool) : String :=
   else if allowRecvErrReply && ((get "out").splitOn ",").all (·.startsWith "2/0>") then "ok"
   else "bad unauth-reply-sent"
 
+/-- C15 attribution oracle for the relay-only tunnel X-A, applied to every answer of receiver A: whatever
+arrived through a relay (`ViaSender{IsRelayed}`: roaming, handshake retransmits, LearnRemote, handshake
+completion) must never make A record an underlay address for X, and whatever A emits while only traffic
+for X is in flight must be a Message/Relay frame (`1/1`), never a bare packet. -/
+def relayOnlyVerdict (impl : String) (onlyRelayFrames : Bool) : String :=
+  let toks := impl.splitOn " "
+  let get (k : String) : String := ((toks.find? (·.startsWith (k ++ "="))).getD (k ++ "=?")).drop (k.length + 1) |>.toString
+  if onlyRelayFrames && get "out" != "-" && !(((get "out").splitOn ",").all (·.startsWith "1/1>")) then
+    "bad e2e-packet-left-relay-tunnel"
+  else if get "xr" == "1" || ((get "roam").splitOn ",").contains "X" then "bad relayed-via-recorded-as-remote"
+  else "ok"
+
+def andVerdict (a b : String) : String := if a == "ok" then b else a
+
 def evalPkt (s : St) (kind src scope : String) (mutArgs : List String) (impl : String) : St × Out :=
   match kindInfo kind with
   | none => (s, badOp)
@@ -218,19 +239,42 @@ def evalPkt (s : St) (kind src scope : String) (mutArgs : List String) (impl : S
         else if outerAuth then s!"pkt:inner-forged-{kind}"
         else if l1.host.isNone then s!"pkt:forged-unknown-index"
         else s!"pkt:forged-{kind}-{mutArgs.headD ""}"
-      (s', { model := model, verdict := verdict, tag := tag })
+      (s', { model := model, verdict := andVerdict verdict (if rx == 0 then relayOnlyVerdict impl false else "ok"), tag := tag })
 
 
 def step (s : St) (args : List String) (impl : String) : St × Out :=
   match args with
   | ["reset", _, acc, snd] =>
     ({ accept := acc == "always", sendErr := snd == "always", ready := true },
-     { model := "ok 1", verdict := expect "reset" impl "ok 1", tag := "triv:reset" })
+     { model := "ok 1 xr=0",
+       verdict := if impl == "ok 1 xr=1" then "bad relayed-via-recorded-as-remote handshake-completion" else expect "reset" impl "ok 1 xr=0",
+       tag := "triv:reset" })
   | "pkt" :: kind :: src :: scope :: mutArgs =>
     if !s.ready then (s, badOp) else
     -- a replay is the second injection of the same datagram: the first (authentic) one happens first
     let s0 := if mutArgs == ["replay"] then (evalPkt s kind src scope ["none"] impl).1 else s
     evalPkt s0 kind src scope mutArgs impl
+  | ["hsdup", src, mode] =>
+    if !s.ready then (s, badOp) else
+    -- outer level: a fresh relay frame sealed by R (authentic on R's tunnel); inner level: X's stage-0
+    -- handshake packet (type Handshake: unauthenticated by design, handled by the handshake manager)
+    let oh : SymHdr := { type := 1, sub := 1, idx := "relay" }
+    let (h2, l2) := mkLook s 0 true src { type := 0, sub := 0, idx := "zero" } { type := 0, sub := 0, idx := "zero" } 3 none
+    let (h1, l1) := mkLook s 0 false src oh oh 2 (some { type := nebula_TerminalType, peer := 3 })
+    let effs := readOutside false (.mk h1 l1 (some (.mk h2 l2 none)))
+    let s' := advance s 0 src effs
+    -- a byte-identical stage-0 of a completed tunnel (ErrAlreadySeen): the cached response is sent again,
+    -- through the relay it came in on; a garbled one fails Noise and is dropped
+    let reached := effs.any (fun e => match e with | .handshakeIn => true | _ => false)
+    let extra := if reached && mode == "relay" then ["1/1>" ++ replyNode s' 0 3] else []
+    let model := render s' 0 2 src effs [] extra
+    (s', { model := model, verdict := relayOnlyVerdict impl true,
+           tag := if !reached then "hsdup:not-reached" else if mode == "relay" then "hsdup:already-seen" else "hsdup:garbled" })
+  | ["reply"] =>
+    if !s.ready then (s, badOp) else
+    -- sendInsideMessage relay branch: X has no direct remote, so the packet leaves as a relay frame to R
+    let model := render s 0 0 "own" [] [] ["1/1>" ++ replyNode s 0 3] 1
+    (s, { model := model, verdict := relayOnlyVerdict impl true, tag := "reply:relayed" })
   | ["recverr", idx, src] =>
     if !s.ready then (s, badOp) else
     let h : SymHdr := { type := 2, sub := 0, idx := idx }
@@ -247,7 +291,7 @@ def step (s : St) (args : List String) (impl : String) : St × Out :=
       if get "del" == "-" then noEffectVerdict impl false
       else if allowed && get "del" == "B" && get "tun" == "0" then "ok"
       else "bad recverr-closed-outside-carveout"
-    (s', { model := model, verdict := verdict, tag := if effs.isEmpty then "recverr:ignored" else "recverr:closed" })
+    (s', { model := model, verdict := andVerdict verdict (relayOnlyVerdict impl false), tag := if effs.isEmpty then "recverr:ignored" else "recverr:closed" })
   | _ => (s, badOp)
 
 def main : IO Unit := runEngine ({} : St) step
